@@ -7,7 +7,11 @@
                     driven bottom-up by AnonymousFunctionCallSites::visit   analysis.rs L2781-2822
    * [prune_if]     PruneConstantIfBranches (expr_is_truthy / is_truthy)   compiler/passes/opt.rs L66-124
    * [ceval]        ConstantEvaluator: visit_atom L649-683, visit_if L557-580, visit_lambda_function L600-625,
-                    visit_list (applied lambda) L804-1018, visit_let L1041-1188 of steel_vm/const_evaluation.rs
+                    visit_list (applied lambda) L804-1018, visit_let L1041-1188 of steel_vm/const_evaluation.rs;
+                    folding of a `constant = true` primitive on constants (visit_list L768-793, eval_function) for
+                    the one such primitive of the model, #%prim.+ ([PAddC], [fold_prim])
+   * [uniq]         RenameShadowedVariables (compiler.rs L1217), [rlets] RemoveLetsBoundToOtherLocalVars: for the
+                    AST correspondence only, no theorem
    * [static_arity] the ArityMismatch stops of const_evaluation.rs L805-824 (a COMPILE-time error: it is what makes
                     the operand count of every directly applied lambda match before the later passes run)
 
@@ -30,7 +34,8 @@ Inductive datum :=
 | DNil
 | DCons (a d : datum).
 
-Inductive prim := PAdd | PConstList | PDisplay.
+(* PAddC is #%prim.+ : the same procedure under the name the constant evaluator knows (`constant = true`) *)
+Inductive prim := PAdd | PConstList | PDisplay | PAddC.
 
 Inductive exp :=
 | Num (z : Z)
@@ -188,6 +193,8 @@ Definition apply_prim (op : prim) (vs : list val) (s : state) : res * state :=
   | PConstList, _ => (Val (list_val vs), s)
   | PDisplay, [v] => (Val VVoid, (fst s, v :: snd s))
   | PDisplay, _ => (Err, s)
+  | PAddC, [VNum a; VNum b] => (Val (VNum (a + b)), s)
+  | PAddC, _ => (Err, s)
   end.
 
 (* operands, left to right; the first non-value aborts *)
@@ -547,6 +554,18 @@ Fixpoint select {A} (keep : list bool) (l : list A) : list A :=
 (* the ArityMismatch stops (L711-713, L805-824) abort the compilation: modelled by a marker that nothing removes *)
 Definition arity_marker : exp := Glob "#%arity-mismatch".
 
+(* visit_list L768-793 with eval_function / handle_output L456-551, for the one foldable primitive of the model: all
+   operands are constants (all_to_constant), the call succeeds (an error leaves the call alone) and its result is an
+   atom.  The names the operands read were already marked by visit_atom. *)
+Definition fold_prim (c : cenv) (op : prim) (al : list exp) : option exp :=
+  match op with
+  | PAddC => match all_some (map (fun e0 => fst (to_const c e0)) al) with
+             | Some [DNum x; DNum y] => Some (Num (x + y))
+             | _ => None
+             end
+  | _ => None
+  end.
+
 Definition cmark (c : cenv) (x : string) : list string :=
   match cget c x with Some _ => [x] | None => [] end.
 
@@ -574,7 +593,12 @@ Fixpoint cvisit (g : guards) (c : cenv) (e : exp) : exp * list string * bool :=
         let '(b', u3, c3) := cvisit g c b in
         (If t' a' b', (u1 ++ read_names c t' ++ u2 ++ u3)%list, c1 || c2 || c3)
   | Begin es => let '(es', u, ch) := cvisits g c es in (Begin es', u, ch)
-  | Prim op a => let '(a', u, ch) := cvisits g c a in (Prim op a', u, ch)
+  | Prim op a =>
+      let '(a', u, ch) := cvisits g c a in
+      match fold_prim c op (elist a') with
+      | Some e1 => (e1, u, true)
+      | None => (Prim op a', u, ch)
+      end
   | SetG x e' => let '(e'', u, ch) := cvisit g c e' in (SetG x e'', (cmark c x ++ u)%list, ch)   (* visit_set: unbind first *)
   | Let xs rhs b =>                                     (* visit_let L1041-1188 *)
       let '(rhs', u1, c1) := cvisits g c rhs in
@@ -789,7 +813,7 @@ Fixpoint datum_str (d : datum) : string :=
   end.
 
 Definition prim_str (p : prim) : string :=
-  match p with PAdd => "+" | PConstList => "const-list" | PDisplay => "display" end.
+  match p with PAdd => "+" | PConstList => "const-list" | PDisplay => "display" | PAddC => "#%prim.+" end.
 
 Fixpoint join (l : list string) : string :=
   match l with [] => "" | [a] => a | a :: r => a ++ " " ++ join r end.
